@@ -468,6 +468,16 @@ def deallocateIf (P : Params) (p : Pool) (filter : Int → Bool) : Outcome (List
           | [] => .stuck "DeallocateIf: null head"
           | h1 :: _ => (difBackward P filter (p1.store.length + 1) (p1.prevOf h1) p1).map (tr1 ++ ·)
 
+/-- `DeallocateIf` whose filter throws when asked its `(k+1)`-th question. `pvDeleteBlocks` finishes one block
+    (`pvDeleteBlock`, `--allocCount`) before it asks about the next and the two loops of `DeallocateIf` read the
+    next / previous buffer before they sweep one, so the exception leaves the pool as a complete call does whose
+    filter answers `false` from the `(k+1)`-th question on. The order of the questions does not depend on the
+    answers (it is the trace of the call that deletes nothing). Value: the questions answered before the throw. -/
+def deallocateIfThrow (P : Params) (p : Pool) (filter : Int → Bool) (k : Nat) : Outcome (List Int) :=
+  match deallocateIf P p (fun _ => false) with
+  | .ok tr _ _ => (deallocateIf P p (fun b => filter b && (tr.take k).contains b)).map (fun _ => tr.take k)
+  | other => other
+
 /-- first loop of `MergeFrom` (406-423) on the list view: the buffers before the other head move, nearest
     first, to the place just before this head -/
 def mergeMoveFull : List Int → List Int → List Int
